@@ -22,8 +22,11 @@ import (
 
 	ics23 "github.com/cosmos/ics23/go"
 
+	abci "github.com/gnolang/gno/tm2/pkg/bft/abci/types"
 	dbm "github.com/gnolang/gno/tm2/pkg/db"
 	iv "github.com/gnolang/gno/tm2/pkg/iavl"
+	storeiavl "github.com/gnolang/gno/tm2/pkg/store/iavl"
+	storetypes "github.com/gnolang/gno/tm2/pkg/store/types"
 
 	"verif/sim/kernel"
 	"verif/sim/simdb"
@@ -251,20 +254,26 @@ type isim struct {
 	knownHit bool // the last failure matched KNOWN_FINDINGS
 }
 
-// rootCause: on a disk that carries the debris of a torn SaveVersion, or a
-// fast index that iavl cannot know to be stale, whatever goes wrong - Load
-// error, phantom keys, wrong values - has that one cause; it is reported under
-// one oracle id (the specific oracle goes into the message).
-func (s *isim) rootCause() string {
+// rootCause: C30 quantifies over histories of sets, removes, saves, loads and
+// version deletions; it says nothing about a process dying half way through
+// SaveVersion or DeleteVersionsTo. iavl issues SEVERAL physical writes for one
+// such call once its BatchWithFlusher auto-flushes, so a crash image cut inside
+// it (and any later state of that disk: the debris stays) is outside the
+// property: whatever is observed there is counted as a probe, never reported.
+//
+// The one root cause that IS inside the property: a fast index that iavl cannot
+// know to be stale (see world.staleFast); every failure under it is reported
+// under one oracle id (the specific oracle goes into the message).
+func (s *isim) rootCause() (observationOnly bool, oracle string) {
 	switch {
 	case s.xw.tainted:
-		return "save-not-atomic-under-crash"
+		return true, "image_cut_inside_SaveVersion"
 	case s.xw.tornPrune:
-		return "delete-not-atomic-under-crash"
+		return true, "image_cut_inside_DeleteVersionsTo"
 	case s.xw.staleFast && !s.xcf.skipFast:
-		return "fast-index-stale-after-overwrite-while-disabled"
+		return false, "fast-index-stale-after-overwrite-while-disabled"
 	}
-	return ""
+	return false, ""
 }
 
 // fail reports a violation. A violation listed in KNOWN_FINDINGS is recorded
@@ -272,7 +281,14 @@ func (s *isim) rootCause() string {
 func (s *isim) fail(oracle, format string, args ...any) {
 	s.stop = true
 	msg := fmt.Sprintf(format, args...)
-	if rc := s.rootCause(); rc != "" {
+	obs, rc := s.rootCause()
+	if obs {
+		s.r.Probe(rc + ":" + oracle)
+		s.knownHit = true
+		s.c.Event("observation outside the property (%s): %s", rc, oracle)
+		return
+	}
+	if rc != "" {
 		msg = "[" + oracle + "] " + msg
 		oracle = rc
 	}
@@ -709,6 +725,77 @@ func (s *isim) opReadVersion() {
 	}
 }
 
+// opStoreView: the same tree read through tm2/pkg/store/iavl (Get/Has, both
+// iterators over the working tree, and a versioned /key query with proof).
+func (s *isim) opStoreView() {
+	st := storeiavl.UnsafeNewStore(s.t, storetypes.StoreOptions{})
+	ks := sortedKeys(s.working)
+	k := s.pickKey()
+	if len(ks) > 0 && s.c.Bool() {
+		k = ks[s.c.Intn(len(ks))]
+	}
+	start, end := s.drawBounds(ks)
+	asc := s.c.Bool()
+	ver := s.pickVersion()
+	s.c.Event("store view: key=%q range=[%q,%q) asc=%v query-version=%d", k, start, end, asc, ver)
+	s.r.Probe("store_views")
+	var got []string
+	bad := ""
+	if p := tryPanic(func() {
+		v := st.Get(nil, []byte(k))
+		mv, ok := s.working[k]
+		if !bytes.Equal(v, mv) || (!ok && v != nil) || st.Has(nil, []byte(k)) != ok {
+			bad = fmt.Sprintf("Get/Has(%q) = %q, model %q present=%v", k, v, mv, ok)
+			return
+		}
+		var it storetypes.Iterator
+		if asc {
+			it = st.Iterator(nil, start, end)
+		} else {
+			it = st.ReverseIterator(nil, start, end)
+		}
+		for ; it.Valid(); it.Next() { // always drained: the store iterator runs a goroutine
+			kk, vv := it.Key(), it.Value()
+			got = append(got, string(kk))
+			if !bytes.Equal(vv, s.working[string(kk)]) && bad == "" {
+				bad = fmt.Sprintf("iterator value of %q is %q, model %q", kk, vv, s.working[string(kk)])
+			}
+		}
+		it.Close()
+	}); p != nil {
+		s.fail("store-panic", "store/iavl read of the working tree panicked: %v", p)
+		return
+	}
+	if want := inRange(ks, start, end, asc); bad != "" || fmt.Sprint(got) != fmt.Sprint(want) {
+		s.fail("store-read", "store/iavl over the working tree: %s; iterator [%q,%q) asc=%v got %d keys, model %d: %.200q vs %.200q", bad, start, end, asc, len(got), len(want), got, want)
+		return
+	}
+	if ver == 0 || len(k) == 0 {
+		return
+	}
+	var res abci.ResponseQuery
+	if p := tryPanic(func() {
+		res = st.Query(abci.RequestQuery{Path: "/key", Data: []byte(k), Height: ver, Prove: true})
+	}); p != nil {
+		s.fail("store-panic", "store/iavl Query(/key %q at %d, prove) panicked: %v", k, ver, p)
+		return
+	}
+	mv, ok := s.st.chain[ver].m[k]
+	if res.Error != nil || res.Height != ver || !bytes.Equal(res.Value, mv) || (!ok && res.Value != nil) {
+		s.fail("store-query", "store/iavl Query(/key %q at version %d) = value %q height %d err=%v log=%q; model %q present=%v", k, ver, res.Value, res.Height, res.Error, res.Log, mv, ok)
+		return
+	}
+	if res.Log == "" && (res.Proof == nil || len(res.Proof.Ops) != 1) {
+		s.fail("store-query", "store/iavl Query(/key %q at version %d, prove) returned no proof op and no log", k, ver)
+	}
+}
+
+func tryPanic(f func()) (p any) {
+	defer func() { p = recover() }()
+	f()
+	return nil
+}
+
 // ---- proofs ----------------------------------------------------------------
 
 func (s *isim) opProof() {
@@ -1035,9 +1122,10 @@ func intact(t *iv.MutableTree, v int64, vi *vinfo) (ok bool) {
 	return good && n == len(vi.m)
 }
 
-// checkGone: versions lo..hi were deleted. A deleted version that can still be
-// loaded with exactly its old content (its root node lives on as a child in the
-// next version) is told apart from one that yields anything else.
+// checkGone: versions lo..hi were deleted. Documented (doc.go): VersionExists is
+// false and GetVersioned returns nil for a deleted version. That GetImmutable
+// may still succeed (the root node lives on as a child of the next version) is
+// only counted.
 func (s *isim) checkGone(why string, chain []*vinfo, lo, hi int64) {
 	for v := lo; v <= hi && !s.stop; v++ {
 		if v < 1 {
@@ -1049,11 +1137,10 @@ func (s *isim) checkGone(why string, chain []*vinfo, lo, hi int64) {
 		}
 		if _, err := s.t.GetImmutable(v); err == nil {
 			if intact(s.t, v, chain[v]) {
-				s.fail("deleted-version-still-loadable", "%s: GetImmutable(%d) succeeds and yields the complete old content of the deleted version", why, v)
+				s.r.Probe("deleted_version_still_loadable_with_its_old_content")
 			} else {
-				s.fail("deleted-version-readable-with-wrong-content", "%s: GetImmutable(%d) succeeds but does not yield the version's content", why, v)
+				s.r.Probe("deleted_version_loadable_with_other_content")
 			}
-			return
 		}
 		if got, err := s.t.GetVersioned([]byte(s.pickKey()), v); err != nil || got != nil {
 			s.fail("deleted-version-get-versioned", "%s: GetVersioned(_, %d) = %q, %v for a deleted version (documented: nil)", why, v, got, err)
@@ -1063,12 +1150,18 @@ func (s *isim) checkGone(why string, chain []*vinfo, lo, hi int64) {
 }
 
 func (s *isim) deleteFailed(to int64, from int, err error) {
+	s.r.Probe("DeleteVersionsTo_returned_an_error")
 	if s.w.applied > from {
-		// it failed after its batch had auto-flushed part of the deletion
-		s.fail("delete-fails-after-partial-flush", "DeleteVersionsTo(%d) (first %d latest %d, flush threshold %d) failed after %d physical writes: %v", to, s.st.first, s.st.latest, s.cf.flush, s.w.applied-from, err)
-	} else {
-		s.fail("delete-error", "DeleteVersionsTo(%d) (first %d latest %d): %v", to, s.st.first, s.st.latest, err)
+		s.r.Probe("DeleteVersionsTo_returned_an_error_after_auto_flushing_part_of_the_deletion")
 	}
+	for v := s.st.first; v <= s.st.latest; v++ {
+		if s.t.VersionExists(v) && !intact(s.t, v, s.st.chain[v]) {
+			s.fail("listed-version-unreadable-after-failed-delete", "DeleteVersionsTo(%d) (first %d latest %d, flush threshold %d) returned %q after %d physical writes; version %d is still listed (VersionExists) but no longer reads back as saved", to, s.st.first, s.st.latest, s.cf.flush, err, s.w.applied-from, v)
+			return
+		}
+	}
+	s.c.Event("DeleteVersionsTo failed; every listed version still reads back: run ends (state unspecified)")
+	s.stop = true
 }
 
 func (s *isim) opDeleteTo(crash bool) {
@@ -1213,13 +1306,17 @@ func (s *isim) verifyTree(why string, t *iv.MutableTree, st *tstate, deep bool) 
 		want = append(want, v)
 	}
 	if fmt.Sprint(got) != fmt.Sprint(want) {
-		// a deleted version that is back, complete and correct (its root node lives on
-		// as a child in later versions, and restart takes it for the first version), is
-		// a class of its own
-		back := len(got) > len(want) && fmt.Sprint(got[len(got)-len(want):]) == fmt.Sprint(want) &&
-			got[0] >= 1 && got[0] < st.first && intact(t, got[0], st.chain[got[0]])
-		if back {
-			s.fail("deleted-version-still-loadable", "%s: AvailableVersions=%v, expected %v: deleted version %d is listed again and loads with its complete old content", why, got, want, got[0])
+		// versions deleted earlier that are listed again after a restart (the root
+		// node of one of them lives on as a child in later versions, and restart
+		// takes it for the first version) are a class of their own
+		if len(got) > len(want) && fmt.Sprint(got[len(got)-len(want):]) == fmt.Sprint(want) && got[0] >= 1 && got[0] < st.first {
+			unreadable := 0
+			for _, v := range got[:len(got)-len(want)] {
+				if !intact(t, v, st.chain[v]) {
+					unreadable++
+				}
+			}
+			s.fail("deleted-version-listed-after-restart", "%s: AvailableVersions=%v, expected %v: versions deleted earlier are listed again (VersionExists true); %d of them do not read back", why, got, want, unreadable)
 		} else {
 			s.fail("available-versions", "%s: AvailableVersions=%v, expected %v", why, got, want)
 		}
@@ -1320,10 +1417,10 @@ func (s *isim) recoverWorld(w *world, where string, powerLoss bool, deep bool) (
 		switch v := t.Version(); v {
 		case part.pre.latest:
 			st = part.pre
-			s.r.Probe("torn_save_recovered_to_previous")
+			s.r.Probe("image_cut_inside_SaveVersion:recovered_to_previous_version")
 		case part.post.latest:
 			st = part.post
-			s.r.Probe("torn_save_recovered_to_new")
+			s.r.Probe("image_cut_inside_SaveVersion:recovered_to_new_version")
 		default:
 			s.fail("recovered-version", "%s: tree is at version %d, neither the previous (%d) nor the new (%d)", why, v, part.pre.latest, part.post.latest)
 			return nil, nil, cf, false
@@ -1394,6 +1491,13 @@ func (s *isim) crashAndRecover(where string, powerLoss bool) {
 		return
 	}
 	if t == nil {
+		return
+	}
+	if s.w.tainted || s.w.tornPrune {
+		// the image was cut inside a multi-write call: it has been looked at (probes);
+		// what follows on this disk is outside the property
+		s.r.Probe("runs_ended_by_an_image_cut_inside_a_multi_write_call")
+		s.stop = true
 		return
 	}
 	s.t, s.cf, s.xcf = t, cf, cf
@@ -1732,6 +1836,7 @@ func runIavl(c *kernel.Choices, p kernel.Params) *kernel.Result {
 		c.Intn(3),       // 14 save with injected write error
 		c.Intn(3),       // 15 power loss while idle
 		c.Intn(3),       // 16 crash-point enumeration
+		c.Intn(4),       // 17 reads through store/iavl
 	}
 	fill := c.Intn(len(s.keys)/2 + 1)
 	for i := 0; i < fill && !s.stop; i++ {
@@ -1776,6 +1881,8 @@ func runIavl(c *kernel.Choices, p kernel.Params) *kernel.Result {
 			s.opPowerLossIdle()
 		case 16:
 			s.opCrashEnum()
+		case 17:
+			s.opStoreView()
 		}
 		s.r.Steps++
 	}
